@@ -234,6 +234,33 @@ package encoding
 // slice / nil / map panic outside reflect, the ordered-map protocol (Get / Delete under the no-duplicate
 // invariant, Add), the frame (only the ordered map is written in tracked memory), termination of the
 // three loops. What the walk does to the destination is covered by the bounded stand-ins alone.
+// What the walk computes, stated over reflect's accessors as uninterpreted FUNCTIONS (A-REFLECT-FUN,
+// /verif/assumed/reflect.spec): field i of struct type t is MERGED (an embedded struct / interface whose
+// fields count as the parent's), DECLARED for a codec (not merged, carries the codec's tag, key not "-"),
+// OPTIONAL (the tag lists omitempty after the key), EMITTED (declared and not an optional zero value).
+// The statement's "embedded structs are merged", "omitempty", "mandatory field" are these predicates.
+//@ spec wkT(t reflect.Type) reflect.Type = ite(rtKind(t) == reflect.Pointer, rtElem(t), t)
+//@ spec wkV(t reflect.Type, v reflect.Value) reflect.Value = ite(rtKind(t) == reflect.Pointer, rvElem(v), v)
+//@ spec wkMerged(t reflect.Type, i int) bool = sfAnon(t, i) && sfName(t, i) == rtName(sfType(t, i)) && (rtKind(sfType(t, i)) == reflect.Struct || rtKind(sfType(t, i)) == reflect.Interface)
+//@ spec wkTag(t reflect.Type, i int, codec string) string = tagVal(sfTag(t, i), codec)
+//@ spec wkKeyStr(t reflect.Type, i int, codec string) string = splitAt(wkTag(t, i, codec), ",", 0)
+//@ spec wkOmit(t reflect.Type, i int, codec string) bool = exists(j, 1, splitN(wkTag(t, i, codec), ","), splitAt(wkTag(t, i, codec), ",", j) == "omitempty")
+//@ spec wkDeclared(t reflect.Type, i int, codec string) bool = !wkMerged(t, i) && tagHas(sfTag(t, i), codec) && wkKeyStr(t, i, codec) != "-"
+//@ spec wkEmits(t reflect.Type, v reflect.Value, i int, codec string) bool = wkDeclared(t, i, codec) && !(wkOmit(t, i, codec) && rvZero(rvFieldOf(v, i)))
+//@ spec wkKeyInt(t reflect.Type, i int) int = atoiVal(wkKeyStr(t, i, "cbor"))
+// every emitted field of (t, v) is in the ordered map under its integer key
+//@ spec wkAllEmittedCBOR(o *structFieldsCBOR, t reflect.Type, v reflect.Value, n int) bool = forall(j, 0, n, wkEmits(t, v, j, "cbor") ==> atoiOK(wkKeyStr(t, j, "cbor")) && inDom(o.Fields, wkKeyInt(t, j)))
+
+// populate side: every declared field's key has been consumed (or was absent), and a declared field
+// that is not optional had its key in the map the walk started from
+//@ spec wkAllConsumedCBOR(o *structFieldsCBOR, t reflect.Type, n int) bool = forall(j, 0, n, wkDeclared(t, j, "cbor") ==> atoiOK(wkKeyStr(t, j, "cbor")) && !inDom(o.Fields, wkKeyInt(t, j)))
+//@ spec wkShrinksCBOR(o *structFieldsCBOR) bool = forallT(k, int, inDom(o.Fields, k) ==> old(inDom(o.Fields, k)) && o.Fields[k] == old(o.Fields[k]))
+
+// the JSON twins: the member name is the first part of the json tag itself
+//@ spec wkAllEmittedJSON(o *structFieldsJSON, t reflect.Type, v reflect.Value, n int) bool = forall(j, 0, n, wkEmits(t, v, j, "json") ==> inDom(o.Fields, wkKeyStr(t, j, "json")))
+//@ spec wkAllConsumedJSON(o *structFieldsJSON, t reflect.Type, n int) bool = forall(j, 0, n, wkDeclared(t, j, "json") ==> !inDom(o.Fields, wkKeyStr(t, j, "json")))
+//@ spec wkShrinksJSON(o *structFieldsJSON) bool = forallT(k, string, inDom(o.Fields, k) ==> old(inDom(o.Fields, k)) && o.Fields[k] == old(o.Fields[k]))
+
 //@ spec embedsOK(s []embedded) bool = forall(k, 0, len(s), dynType(s[k].Type) != 0)
 
 //@ func encoding.collectEmbedded
@@ -250,10 +277,18 @@ package encoding
 //@   requires rawMap != nil && dm != nil && dynType(structType) != 0 && noDupInts(rawMap.Keys)
 //@   ensures[nodup] noDupInts(rawMap.Keys)
 //@   ensures[keys-array] refOf(rawMap.Keys) == refOf(old(rawMap.Keys))
+//@   ensures[same-map] rawMap.Fields == old(rawMap.Fields)
+//@   ensures[shrinks] wkShrinksCBOR(rawMap)
+//@   ensures[consumed] ret == nil ==> wkAllConsumedCBOR(rawMap, wkT(structType), rvNumField(wkV(structType, structVal)))
+//@   ensures[mandatory] ret == nil ==> forall(j, 0, rvNumField(wkV(structType, structVal)), wkDeclared(wkT(structType), j, "cbor") && !wkOmit(wkT(structType), j, "cbor") ==> old(inDom(rawMap.Fields, wkKeyInt(wkT(structType), j))))
 //@   modifies rawMap.Keys, mapOf(rawMap.Fields), elems(rawMap.Keys)
 //@   option assume-recursion-terminates=each recursive call descends into the type of an embedded field; Go types nest finitely
 //@   loop 0 invariant i >= 0
 //@   loop 0 invariant noDupInts(rawMap.Keys)
+//@   loop 0 invariant structType == wkT(structType0) && structVal == wkV(structType0, structVal0)
+//@   loop 0 invariant rawMap.Fields == old(rawMap.Fields) && wkShrinksCBOR(rawMap)
+//@   loop 0 invariant wkAllConsumedCBOR(rawMap, structType, i)
+//@   loop 0 invariant forall(j, 0, i, wkDeclared(structType, j, "cbor") && !wkOmit(structType, j, "cbor") ==> old(inDom(rawMap.Fields, wkKeyInt(structType, j))))
 //@   loop 0 invariant refOf(rawMap.Keys) == refOf(old(rawMap.Keys))
 //@   loop 0 invariant embedsOK(embeds)
 //@   loop 0 invariant (embeds == nil || fresh(embeds))
@@ -265,6 +300,10 @@ package encoding
 //@   loop 2 invariant rangeindex < len(embeds)
 //@   loop 2 invariant embedsOK(embeds)
 //@   loop 2 invariant noDupInts(rawMap.Keys)
+//@   loop 2 invariant structType == wkT(structType0) && structVal == wkV(structType0, structVal0)
+//@   loop 2 invariant rawMap.Fields == old(rawMap.Fields) && wkShrinksCBOR(rawMap)
+//@   loop 2 invariant wkAllConsumedCBOR(rawMap, structType, rvNumField(structVal))
+//@   loop 2 invariant forall(j, 0, rvNumField(structVal), wkDeclared(structType, j, "cbor") && !wkOmit(structType, j, "cbor") ==> old(inDom(rawMap.Fields, wkKeyInt(structType, j))))
 //@   loop 2 invariant refOf(rawMap.Keys) == refOf(old(rawMap.Keys))
 
 //@ func encoding.doPopulateStructFromJSON
@@ -272,10 +311,18 @@ package encoding
 //@   requires rawMap != nil && dynType(structType) != 0 && noDupStrings(rawMap.Keys)
 //@   ensures[nodup] noDupStrings(rawMap.Keys)
 //@   ensures[keys-array] refOf(rawMap.Keys) == refOf(old(rawMap.Keys))
+//@   ensures[same-map] rawMap.Fields == old(rawMap.Fields)
+//@   ensures[shrinks] wkShrinksJSON(rawMap)
+//@   ensures[consumed] ret == nil ==> wkAllConsumedJSON(rawMap, wkT(structType), rvNumField(wkV(structType, structVal)))
+//@   ensures[mandatory] ret == nil ==> forall(j, 0, rvNumField(wkV(structType, structVal)), wkDeclared(wkT(structType), j, "json") && !wkOmit(wkT(structType), j, "json") ==> old(inDom(rawMap.Fields, wkKeyStr(wkT(structType), j, "json"))))
 //@   modifies rawMap.Keys, mapOf(rawMap.Fields), elems(rawMap.Keys)
 //@   option assume-recursion-terminates=each recursive call descends into the type of an embedded field; Go types nest finitely
 //@   loop 0 invariant i >= 0
 //@   loop 0 invariant noDupStrings(rawMap.Keys)
+//@   loop 0 invariant structType == wkT(structType0) && structVal == wkV(structType0, structVal0)
+//@   loop 0 invariant rawMap.Fields == old(rawMap.Fields) && wkShrinksJSON(rawMap)
+//@   loop 0 invariant wkAllConsumedJSON(rawMap, structType, i)
+//@   loop 0 invariant forall(j, 0, i, wkDeclared(structType, j, "json") && !wkOmit(structType, j, "json") ==> old(inDom(rawMap.Fields, wkKeyStr(structType, j, "json"))))
 //@   loop 0 invariant refOf(rawMap.Keys) == refOf(old(rawMap.Keys))
 //@   loop 0 invariant embedsOK(embeds)
 //@   loop 0 invariant (embeds == nil || fresh(embeds))
@@ -287,6 +334,10 @@ package encoding
 //@   loop 2 invariant rangeindex < len(embeds)
 //@   loop 2 invariant embedsOK(embeds)
 //@   loop 2 invariant noDupStrings(rawMap.Keys)
+//@   loop 2 invariant structType == wkT(structType0) && structVal == wkV(structType0, structVal0)
+//@   loop 2 invariant rawMap.Fields == old(rawMap.Fields) && wkShrinksJSON(rawMap)
+//@   loop 2 invariant wkAllConsumedJSON(rawMap, structType, rvNumField(structVal))
+//@   loop 2 invariant forall(j, 0, rvNumField(structVal), wkDeclared(structType, j, "json") && !wkOmit(structType, j, "json") ==> old(inDom(rawMap.Fields, wkKeyStr(structType, j, "json"))))
 //@   loop 2 invariant refOf(rawMap.Keys) == refOf(old(rawMap.Keys))
 
 // Serialising side: fields are added to the ordered map (Add refuses a key that is already there, so
@@ -297,11 +348,16 @@ package encoding
 //@   ensures[inv] omInvCBOR(rawMap)
 //@   ensures[keys-array] refOf(rawMap.Keys) == refOf(old(rawMap.Keys)) || fresh(rawMap.Keys)
 //@   ensures[same-map] rawMap.Fields == old(rawMap.Fields)
+//@   ensures[monotone] forallT(k, int, old(inDom(rawMap.Fields, k)) ==> inDom(rawMap.Fields, k) && rawMap.Fields[k] == old(rawMap.Fields[k]))
+//@   ensures[emitted] ret == nil ==> wkAllEmittedCBOR(rawMap, wkT(structType), wkV(structType, structVal), rvNumField(wkV(structType, structVal)))
 //@   assumes[bounded-len] len(rawMap.Keys) <= 0xffffffff :: one key per struct field: a Go struct, with everything it embeds, has far fewer than 2^32 fields (ToCBOR's 4-byte header is the widest it writes)
 //@   modifies rawMap.Keys, mapOf(rawMap.Fields), elems(rawMap.Keys)
 //@   option assume-recursion-terminates=each recursive call descends into the type of an embedded field; Go types nest finitely
 //@   loop 0 invariant i >= 0
 //@   loop 0 invariant omInvCBOR(rawMap)
+//@   loop 0 invariant structType == wkT(structType0) && structVal == wkV(structType0, structVal0)
+//@   loop 0 invariant forallT(k, int, old(inDom(rawMap.Fields, k)) ==> inDom(rawMap.Fields, k) && rawMap.Fields[k] == old(rawMap.Fields[k]))
+//@   loop 0 invariant wkAllEmittedCBOR(rawMap, structType, structVal, i)
 //@   loop 0 invariant rawMap.Fields == old(rawMap.Fields)
 //@   loop 0 invariant (refOf(rawMap.Keys) == refOf(old(rawMap.Keys)) || fresh(rawMap.Keys))
 //@   loop 0 invariant embedsOK(embeds)
@@ -314,6 +370,9 @@ package encoding
 //@   loop 2 invariant rangeindex < len(embeds)
 //@   loop 2 invariant embedsOK(embeds)
 //@   loop 2 invariant omInvCBOR(rawMap)
+//@   loop 2 invariant structType == wkT(structType0) && structVal == wkV(structType0, structVal0)
+//@   loop 2 invariant forallT(k, int, old(inDom(rawMap.Fields, k)) ==> inDom(rawMap.Fields, k) && rawMap.Fields[k] == old(rawMap.Fields[k]))
+//@   loop 2 invariant wkAllEmittedCBOR(rawMap, structType, structVal, rvNumField(structVal))
 //@   loop 2 invariant rawMap.Fields == old(rawMap.Fields)
 //@   loop 2 invariant (refOf(rawMap.Keys) == refOf(old(rawMap.Keys)) || fresh(rawMap.Keys))
 
@@ -323,10 +382,15 @@ package encoding
 //@   ensures[inv] omInvJSON(rawMap)
 //@   ensures[keys-array] refOf(rawMap.Keys) == refOf(old(rawMap.Keys)) || fresh(rawMap.Keys)
 //@   ensures[same-map] rawMap.Fields == old(rawMap.Fields)
+//@   ensures[monotone] forallT(k, string, old(inDom(rawMap.Fields, k)) ==> inDom(rawMap.Fields, k) && rawMap.Fields[k] == old(rawMap.Fields[k]))
+//@   ensures[emitted] ret == nil ==> wkAllEmittedJSON(rawMap, wkT(structType), wkV(structType, structVal), rvNumField(wkV(structType, structVal)))
 //@   modifies rawMap.Keys, mapOf(rawMap.Fields), elems(rawMap.Keys)
 //@   option assume-recursion-terminates=each recursive call descends into the type of an embedded field; Go types nest finitely
 //@   loop 0 invariant i >= 0
 //@   loop 0 invariant omInvJSON(rawMap)
+//@   loop 0 invariant structType == wkT(structType0) && structVal == wkV(structType0, structVal0)
+//@   loop 0 invariant forallT(k, string, old(inDom(rawMap.Fields, k)) ==> inDom(rawMap.Fields, k) && rawMap.Fields[k] == old(rawMap.Fields[k]))
+//@   loop 0 invariant wkAllEmittedJSON(rawMap, structType, structVal, i)
 //@   loop 0 invariant rawMap.Fields == old(rawMap.Fields)
 //@   loop 0 invariant (refOf(rawMap.Keys) == refOf(old(rawMap.Keys)) || fresh(rawMap.Keys))
 //@   loop 0 invariant embedsOK(embeds)
@@ -339,6 +403,9 @@ package encoding
 //@   loop 2 invariant rangeindex < len(embeds)
 //@   loop 2 invariant embedsOK(embeds)
 //@   loop 2 invariant omInvJSON(rawMap)
+//@   loop 2 invariant structType == wkT(structType0) && structVal == wkV(structType0, structVal0)
+//@   loop 2 invariant forallT(k, string, old(inDom(rawMap.Fields, k)) ==> inDom(rawMap.Fields, k) && rawMap.Fields[k] == old(rawMap.Fields[k]))
+//@   loop 2 invariant wkAllEmittedJSON(rawMap, structType, structVal, rvNumField(structVal))
 //@   loop 2 invariant rawMap.Fields == old(rawMap.Fields)
 //@   loop 2 invariant (refOf(rawMap.Keys) == refOf(old(rawMap.Keys)) || fresh(rawMap.Keys))
 
